@@ -301,6 +301,18 @@ def n_pairs(shape):
     return (A**X) * (B**Y)
 
 
+POOL_THRESHOLD = 1000  # classical_value forks a multiprocessing.Pool() (one worker per core) above this count
+
+
+def toqito_enum_count(shape):
+    """number of loop iterations of NonlocalGame.classical_value for this shape: the larger of the intended count
+    (#functions of the enumerated player) and the count of the unrepaired formula (other player's alphabet size)"""
+    A, B, X, Y = (int(v) for v in shape)
+    if A**X < B**Y:
+        A, B, X, Y = B, A, Y, X
+    return max(A**Y, B**Y)
+
+
 def classical_pairs(prob, pred):
     """max over *all pairs* (f, g) of deterministic answer functions of sum_xy pi(x,y) V(f(x), g(y) | x, y)"""
     A, B, X, Y = pred.shape
